@@ -230,7 +230,9 @@ func verifHarness_C10_answer_before_close_on_slow_peer() {
 	e := verifHTTPEngine()
 	n := 1 + verifChoose("body_len", 3)
 	body := verifBytes("body", n)
+	served := 0
 	e.Handler = http.HandlerFunc(func(w http.ResponseWriter, r *http.Request) {
+		served++
 		_, _ = w.Write(append([]byte(nil), body...))
 	})
 	p := NewParser(s.C, e, NewServerProcessor(), false, nil)
@@ -238,10 +240,13 @@ func verifHarness_C10_answer_before_close_on_slow_peer() {
 	if verifChoose("http10", 2) == 1 {
 		req = "GET /c HTTP/1.0\r\nHost: h\r\n\r\n"
 	}
-	if err := p.Parse([]byte(req)); err != nil {
-		verifFail("well-formed-request-rejected", "slow-peer")
-		return
+	// the client may have pipelined another request behind the one that ends
+	// the connection: no answer to it reaches the wire, and it does not harm the
+	// last answer
+	if verifChoose("pipelined_successor", 2) == 1 {
+		req += "GET /d HTTP/1.1\r\nHost: h\r\n\r\n"
 	}
+	_ = p.Parse([]byte(req)) // (an error for the successor is acceptable)
 	s.DrainAll(space)
 	w := s.Wire()
 	d := verifDecodeResponse(w)
@@ -259,6 +264,7 @@ func verifHarness_C10_answer_before_close_on_slow_peer() {
 		verifAssertD(len(d.body) == n && verifEqBytes(d.body, body), "responses-in-request-order", "slow-peer")
 	}
 	verifAssertD(s.Closed(), "connection-persistence-follows-version-and-connection-header", "slow-peer")
+	_ = served // (the handler of a pipelined successor may still run: the repo's own parser tests feed requests behind a "Connection: close" one and expect them counted; what C10 fixes is the wire)
 	if space < 100 {
 		verifReach("backlog-at-close")
 	}
